@@ -1,5 +1,5 @@
 # configuration of ./check for property C13 (see props_config.py)
-CONFIG = {'gen': [],
+CONFIG = {'gen': ['ConstsC13'],
  'rule': 'cases = (a) every single-bit pattern of the 128 bits and its complement, all-zero, all-one, then seeded random 16-byte values '
          '(dense/sparse), each sent through uuid.Unmarshal, UUIDv1/v2/v8.Unmarshal (as is and with the version nibble forced), '
          'GetClockSequence, guid.FromRawBytes, the canonical text in lower/upper/mixed case through the four FromString parsers, and the '
@@ -8,7 +8,8 @@ CONFIG = {'gen': [],
          'single-bit pattern of every field (also bits outside the widths) and random field assignments of UUID, UUIDv1, UUIDv2, UUIDv8, '
          'GUID through Marshal->Unmarshal / ToBytes->FromRawBytes; (c) binary inputs of length 0..24; (d) malformed text: corpus of '
          'historical witnesses, groups of other widths, moved/duplicated/deleted/inserted characters, inner white space, truncations, '
-         'wrong bracket pairs; distinct = distinct input line; non-trivial = implementation returned a value Half of the decoding/parsing cases (chosen by the arguments) use a receiver that has already decoded or parsed another value with every field non-zero.',
+         'wrong bracket pairs; distinct = distinct input line; non-trivial = implementation returned a value Half of the decoding/parsing '
+         'cases (chosen by the arguments) use a receiver that has already decoded or parsed another value with every field non-zero.',
  'assumptions': ['text inputs are ASCII: strings.TrimSpace/ToLower are modelled on bytes < 0x80 (Unicode white space and case tables are '
                  'not modelled)',
                  'strconv.ParseUint(_,16,n), encoding/hex.DecodeString, strings.Split/Replace, fmt %0Nx and regexp.MatchString on the five '
@@ -22,7 +23,10 @@ CONFIG = {'gen': [],
  'technique': 'Lean 4 proof (bit extensionality for the nibble/field/endianness layouts, induction for hex printing/parsing and the '
               'pattern reader/writer, omega for the RFC 4122 bit-field arithmetic) about a hand model; model tied to the Go code by '
               'differential correspondence; RFC 4122 / MS-DTYP specification evaluated on the same inputs and itself cross-checked against '
-              'google/uuid',
+              'google/uuid; constants regenerated from the source on every run by a go/ast fact extractor (Gen/ConstsC13: nibble masks, '
+              'shifts and byte positions of UUID.Marshal/Unmarshal, field masks, shifts, positions, widths and byte orders of '
+              'UUIDv1/UUIDv2 with their version numbers, byte positions and shifts of GUID.FromRawBytes/ToBytes, the 16-byte minimum '
+              'lengths) and proved equal to the ones the model uses by rfl/decide (23 theorems consts_match_model_*)',
  'level_text': '36 theorems proved in Lean for all inputs about a hand-written model of uuid.UUID, UUIDv1, UUIDv2, UUIDv8 and guid.GUID '
                '(with the three fix patches): Marshal is a bijection between in-width fields and all 2^128 byte values '
                '(uuid_marshal_bijective, uuid_fields_roundtrip, uuid_bytes_roundtrip and the v1/v2/v8 analogues); String/FromString are '
@@ -33,9 +37,14 @@ CONFIG = {'gen': [],
                'guid_parse_then_format), texts equal the MS-DTYP/.NET forms (guid_text_eq_msdtyp), FromString is exactly the union of the '
                'five (fromString_dispatch), no parser panics. The RFC 4122 14-bit clock sequence is NOT met (finding clockseq12: '
                'counterexample theorems + partial theorems). The model is tied to the code by running both on the same generated inputs on '
-               'every run.',
- 'level_note': 'Trusted: Lean kernel; axioms propext, Classical.choice, Quot.sound; the hand model is tied to the Go code only by '
-               "differential testing (bounded, ASCII text); stdlib semantics (strconv, hex, fmt, regexp, strings) as modelled. 'Reproduces "
-               "the input' is read as lower(input) for UUIDs and lower(trim(input)) for GUIDs. UUIDv2 is checked for round trips within "
-               'the widths the code gives its fields (28 timestamp bits, 4 clock bits; DCE 1.1 has 6 clock bits) — no standard is named '
-               'for v2 by the property.'}
+               'every run. Constants tie: 23 theorems consts_match_model_* restate the model functions with the numbers regenerated from '
+               'the current source (nibble masks, shifts and byte positions of UUID.Marshal/Unmarshal, field masks, shifts, positions, '
+               'widths and byte orders of UUIDv1/UUIDv2 with their version numbers, byte positions and shifts of '
+               'GUID.FromRawBytes/ToBytes, the 16-byte minimum lengths) in place of their literals; a changed constant in the source makes '
+               'the theorem named after the function fail.',
+ 'level_note': 'Trusted: Lean kernel; axioms propext, Classical.choice, Quot.sound; the hand model is tied to the Go code by differential '
+               'testing and, for the constants covered by consts_match_model_*, by regeneration from the source (control flow: '
+               'differential testing only, bounded, ASCII text); stdlib semantics (strconv, hex, fmt, regexp, strings) as modelled. '
+               "'Reproduces the input' is read as lower(input) for UUIDs and lower(trim(input)) for GUIDs. UUIDv2 is checked for round "
+               'trips within the widths the code gives its fields (28 timestamp bits, 4 clock bits; DCE 1.1 has 6 clock bits) — no '
+               'standard is named for v2 by the property.'}
